@@ -29,6 +29,20 @@ func init() {
 	})
 }
 
+// openReceiverNonNil: the HPKE context Open is called on was tested against
+// nil on the way (a first hello with an empty encapsulated key has none; so has
+// a retry when the first hello was not accepted). Reported under C02.A4 and,
+// as a crash, under C08.I6.
+func openReceiverNonNil(p *core.Prog, r *core.Run, m *echModel, rule string) {
+	ok := false
+	for _, f := range p.Facts(m.open.Block()) {
+		if f.Op == "!=" && f.R != nil && f.R.Name == "nil" && f.L.Val == m.open.Instr.Common().Args[0] {
+			ok = true
+		}
+	}
+	r.Check(rule, "Open:receiver-non-nil", ok, p.InstrPos(m.open.Instr), "Open is reached only with a non-nil context")
+}
+
 func c02Rules(p *core.Prog, r *core.Run) {
 	m := newEchModel(p)
 	if !m.ok(r, "C02.model") {
@@ -179,6 +193,10 @@ func c02Rules(p *core.Prog, r *core.Run) {
 	// key.Config in the info string is the config exactly as the caller gave it
 	// (a re-serialised config is a different byte string for a non-canonical one)
 	c09Keys(p, r, m, "C02.A4.keys")
+	// the second hello is bound to the first: same config id, same cipher suite,
+	// no new encapsulated key - otherwise a payload sealed under the first
+	// context is accepted for a hello that names something else (rules of C06)
+	c06State(p, r, m, "C02.retry")
 	r.Check("C02.A4", "Open:receiver-non-nil", nilBlocked, p.InstrPos(m.open.Instr), "Open is reached only with a non-nil context")
 	r.Floor("C02.A4", 8)
 
@@ -397,8 +415,9 @@ func c02ErrDiscipline(p *core.Prog, r *core.Run, fns []*ssa.Function) {
 					continue
 				}
 				name := p.X(c).Name
-				if strings.HasPrefix(name, "(*cryptobyte.Builder).") || strings.HasPrefix(name, "fmt.Fprintf") || strings.HasPrefix(name, "(hash.Hash).Write") || strings.HasPrefix(name, "(io.Writer).Write") {
-					continue // builders latch their error until Bytes(); hash writers never fail
+				if strings.HasPrefix(name, "(*cryptobyte.Builder).") || strings.HasPrefix(name, "fmt.Fprintf") || strings.HasPrefix(name, "(hash.Hash).Write") || strings.HasPrefix(name, "(io.Writer).Write") ||
+					strings.HasPrefix(name, "(*strings.Builder).Write") || strings.HasPrefix(name, "(*bytes.Buffer).Write") {
+					continue // builders latch their error until Bytes(); hash writers and in-memory buffers never fail (documented: the error is always nil)
 				}
 				used := false
 				if res.Len() == 1 {
@@ -473,6 +492,15 @@ func c02MarshalAAD(p *core.Prog, r *core.Run, m *echModel) {
 				l := a.Args[0]
 				okZ := l.Op == "call" && l.Name == "len" && (l.Args[0].Op == "field" && l.Args[0].Obj == m.fExt["Payload"] ||
 					l.Args[0].Op == "slice" && l.Args[0].Args[2].Name == "_" && l.Args[0].Args[1].Op == "bin" && l.Args[0].Args[1].Name == "-")
+				// however it is spelled, the count must add up to len(Payload)
+				if coef, k, ok := linOf(l); ok && k == 0 && len(coef) == 1 {
+					okZ = false
+					for atom, c := range coef {
+						if c == 1 && strings.HasPrefix(atom, "len(") && strings.HasSuffix(atom, ".Payload)") {
+							okZ = true
+						}
+					}
+				}
 				if okZ {
 					zeros = true
 				}
